@@ -537,7 +537,9 @@ def run(ctx):
             tasks.append(("gpairs", part))
     nb = len(heavy)
     tasks = tasks[:nb] + ctx.order(tasks[nb:])
+    t_setup = ctx.elapsed()
     pmap_acc(work, tasks, ctx.acc, jobs=ctx.jobs)
+    ctx.coverage["phases_wall_s"] = {"build+task-list": round(t_setup, 1), "enumeration": round(ctx.elapsed() - t_setup, 1)}
     if "harness_error" in ctx.acc.notes:
         raise HarnessError(ctx.acc.notes["harness_error"])
 
